@@ -198,8 +198,13 @@ func valSpans(rounded uint64) []valSpan {
 	return sp
 }
 
-// even bytes only
-func valPat(id int, i uint64) byte { return byte((uint64(id)*37+i*11+5)&0x7f) << 1 }
+// even bytes only; the last four bytes of every block are zero (plain caller data as well)
+func valPat(id int, i, rounded uint64) byte {
+	if i+4 >= rounded {
+		return 0
+	}
+	return byte((uint64(id)*37+i*11+5)&0x7f) << 1
+}
 
 func valSizeClass(size uint32) string {
 	switch {
@@ -328,7 +333,7 @@ func TestVerifAllocator(t *testing.T) {
 				nextID++
 				for _, sp := range l.spans {
 					for i := uint64(0); i < sp.n; i++ {
-						mem.put(p+sp.off+i, valPat(l.id, sp.off+i))
+						mem.put(p+sp.off+i, valPat(l.id, sp.off+i, l.rounded))
 					}
 				}
 				live[p] = l
@@ -375,8 +380,8 @@ func TestVerifAllocator(t *testing.T) {
 			for _, l := range live {
 				for _, sp := range l.spans {
 					for i := uint64(0); i < sp.n; i++ {
-						if g := mem.get(l.ptr + sp.off + i); g != valPat(l.id, sp.off+i) {
-							fail("data", fmt.Sprintf("byte %d of live allocation %d = %#x", sp.off+i, l.ptr, valPat(l.id, sp.off+i)),
+						if g := mem.get(l.ptr + sp.off + i); g != valPat(l.id, sp.off+i, l.rounded) {
+							fail("data", fmt.Sprintf("byte %d of live allocation %d = %#x", sp.off+i, l.ptr, valPat(l.id, sp.off+i, l.rounded)),
 								fmt.Sprintf("%#x", g), "live-data-changed")
 							break steps
 						}
